@@ -2,6 +2,7 @@ package prog
 
 import (
 	"context"
+	"encoding/json"
 	"fmt"
 	"io"
 	"reflect"
@@ -22,6 +23,7 @@ type Settings struct {
 	FloatPrec        *int    `json:"floatPrec,omitempty"`
 	ErrMarshal       string  `json:"errMarshal,omitempty"`   // "" default | "string" | "nil" | "obj"
 	StackMarshal     string  `json:"stackMarshal,omitempty"` // "" none | "nil" | "string" | "error" | "nilerr" | "obj" | "other"
+	IfaceMarshal     string  `json:"ifaceMarshal,omitempty"` // "" default | "sprint": InterfaceMarshalFunc set at run time to one that renders the %v text as a JSON string
 	LevelMarshal     string  `json:"levelMarshal,omitempty"` // "" default | "tag": "L<n>" for every level, NoLevel too | "dropinfo": "" for Info
 }
 
@@ -189,6 +191,10 @@ func ApplySettings(s Settings) func() {
 		zerolog.ErrorStackMarshaler = func(err error) interface{} { return []int{1, 2} }
 	}
 	oldLM := zerolog.LevelFieldMarshalFunc
+	oldIM := zerolog.InterfaceMarshalFunc
+	if s.IfaceMarshal == "sprint" { // assigned at run time, long after package init: both builds must pick it up
+		zerolog.InterfaceMarshalFunc = func(v interface{}) ([]byte, error) { return json.Marshal(fmt.Sprintf("%v", v)) }
+	}
 	switch s.LevelMarshal {
 	case "tag": // a marshal function that has a text for NoLevel too: whether the field appears is decided by the event, not by this text
 		zerolog.LevelFieldMarshalFunc = func(l zerolog.Level) string { return "L" + strconv.Itoa(int(l)) }
@@ -202,6 +208,7 @@ func ApplySettings(s Settings) func() {
 	}
 	return func() {
 		zerolog.LevelFieldMarshalFunc = oldLM
+		zerolog.InterfaceMarshalFunc = oldIM
 		zerolog.LevelFieldName, zerolog.MessageFieldName, zerolog.ErrorFieldName, zerolog.TimeFieldFormat = o.lf, o.mf, o.ef, o.tf
 		zerolog.DurationFieldUnit, zerolog.DurationFieldInteger, zerolog.FloatingPointPrecision = o.du, o.di, o.fp
 		zerolog.ErrorMarshalFunc, zerolog.ErrorStackMarshaler, zerolog.TimestampFunc = o.em, o.sm, o.ts
